@@ -8,6 +8,7 @@ package main
 import (
 	"fmt"
 	"math/rand"
+	"net/http/httptest"
 	"strings"
 	"sync"
 	"sync/atomic"
@@ -188,6 +189,12 @@ func runConcRound(tw *traceWriter, r *rand.Rand, round int, servers, nops int) {
 				if rr.Intn(2) == 0 {
 					en = "D"
 				}
+				if rr.Intn(40) == 0 {
+					// a request whose route selection panics (escapes: recovery is off); it must leave no lock behind
+					if hb, err := buildRequest("GET", p, [][2]string{{"X-Boom", "1"}}, nil, false); err == nil {
+						safely(func() { c.Dispatch(httptest.NewRecorder(), hb) })
+					}
+				}
 				s := atomic.AddInt64(&seq, 1)
 				obs, _ := regProbe(c, en, p)
 				obs = norm404(obs)
@@ -205,7 +212,9 @@ func runConcRound(tw *traceWriter, r *rand.Rand, round int, servers, nops int) {
 		defer wg.Done()
 		defer atomic.StoreInt32(&done, 1)
 		for i, op := range ops {
-			time.Sleep(time.Duration(50+r.Intn(300)) * time.Microsecond)
+			if r.Intn(2) == 0 {
+				time.Sleep(time.Duration(50+r.Intn(300)) * time.Microsecond) // else: back to back with the previous one
+			}
 			opStart[i] = atomic.AddInt64(&seq, 1)
 			pv := safely(func() {
 				switch op[0] {
